@@ -421,6 +421,7 @@ func (s *Setup) ParentLifecycle(b *EnvBudget) []EnvOp {
 			prop := prop
 			ops = append(ops, EnvOp{"delete-parent-" + prop + " " + p.Name, func(w *World) {
 				b.take()
+				w.Cfg["parentDeleted"+prop] = "true"
 				w.Store.Delete(p.Res, p.NS, p.Name, DeleteOpts{Propagation: prop}, "user")
 			}})
 		}
